@@ -113,3 +113,14 @@ mod tests {
         assert_eq!(&keys, &[10, 20, 10, 20, 30, 15, 25, 30]);
     }
 }
+
+#[cfg(feature = "verif")]
+pub fn verif_heap_replace<T: Copy, C: Comparator<T>>(
+    keys: &mut [T],
+    values: &mut [usize],
+    key: T,
+    value: usize,
+    node: usize,
+) {
+    heap_replace::<T, C>(keys, values, key, value, node)
+}
